@@ -94,6 +94,16 @@ func evalURI(c CaseURI) Result {
 	if e != 0 {
 		return ok(false, "rejected")
 	}
+	// the same result on a structure that was used for another URI and Reset()
+	{
+		var used sipsp.PsipURI
+		sipsp.ParseURI([]byte("sips:olduser:oldpass@old.example.org:5071;transport=tls;maddr=1.2.3.4?subject=old&x=y"), &used)
+		used.Reset()
+		e2, p2 := sipsp.ParseURI(in, &used)
+		if e2 != e || p2 != pos || used != u {
+			return viol("ParseURI(%s) into a structure used before and Reset(): (%v, %d) %+v; into a new one: (%v, %d) %+v", c.U, e2, p2, used, e, pos, u)
+		}
+	}
 	// the property quantifies over texts behind a sip:/sips:/tel: prefix (any letter case)
 	if l := asciiLower(in); !(len(l) >= 4 && (l[:4] == "sip:" || l[:4] == "tel:") || len(l) >= 5 && l[:5] == "sips:") {
 		return ok(false, "accepted-without-a-proper-scheme")
